@@ -188,6 +188,11 @@ def cases(prop, tier, seed):
     out.append(_gen_bulk(rng, [10, 0, 250][i % 3]))
   for i in range(400 if tier == 'quick' else 8000):
     out.append(_gen_pattern(rng, [10, 0, 250, 1000][i % 4]))
+  for i in range(150 if tier == 'quick' else 3000):
+    sc = _gen_pattern(rng, 1000) if i % 2 else _gen_script(rng, 1000)
+    sc['lowres'] = 1
+    sc['phase'] = rng.choice([0, 100, 370, 500, 900, 990])
+    out.append(sc)
   for i in range(n):
     res = [10, 10, 0, 250, 1000][i % 5]
     out.append(_gen_script(rng, res))
@@ -204,12 +209,26 @@ def run_case(script):
   loop.run_until(EPOCH + T0 / 1000.0)
   loop.settle()
   res = script['res']
-  tq = TimerQueue(time_source=loop.now, resolution=res / 1000.0)
+  slack_ms = 0
+  if script.get('lowres'):
+    # the LOW_RESOLUTION_TIMER_QUEUE pairing: the queue's clock is a LowResolutionTime that only ticks once
+    # per second (driven by the global timer queue); events are stamped with the QUEUE's clock and timing
+    # clauses hold up to one tick (+ the 10 ms resolution of the queue that drives the ticks)
+    from scales.timer_queue import LowResolutionTime
+    loop.run_for(script.get('phase', 0) / 1000.0)
+    lr = LowResolutionTime(resolution=1)
+    tq = TimerQueue(time_source=lr.Get, resolution=1)
+    res = 1000
+    slack_ms = 1020
+    clock = lr.Get
+  else:
+    tq = TimerQueue(time_source=loop.now, resolution=res / 1000.0)
+    clock = loop.now
   ev = []
   cancels = {}
 
   def now_ms():
-    return int(round((loop.now() - EPOCH) * 1000))
+    return int(round((clock() - EPOCH) * 1000))
 
   def action(i):
     def run():
@@ -235,7 +254,7 @@ def run_case(script):
     elif k == 'q':
       loop.settle()
       ev.append({'e': 'Q', 't': now_ms()})
-  return {'cfg': {'res': res, 't0': T0}, 'ev': ev,
+  return {'cfg': {'res': res, 't0': T0, 'slack': slack_ms}, 'ev': ev,
           'meta': {'worker_dead': bool(tq._worker.dead) if hasattr(tq, '_worker') else None,
                    'errors': [e[1:3] for e in loop.errors][:3]}}
 
@@ -319,7 +338,7 @@ def _replay_one(beh):
   loop.run_until(loop.now() + 10 * UNIT)
   loop.settle()
   ev.append({'e': 'Q', 't': units()})
-  return {'cfg': {'res': res_units, 't0': 0}, 'ev': ev, 'steps': steps, 'drift': drift}
+  return {'cfg': {'res': res_units, 't0': 0, 'slack': 0}, 'ev': ev, 'steps': steps, 'drift': drift}
 
 
 def _replay_case(beh_json):
